@@ -3,17 +3,18 @@
 
    Input, one history per line, items separated by " ; ":
      C <lo>:<k>,<k>,...|<lo>:<k>,...          the leaf chain after preparation (numbers, hex; from the driver)
-     inv <tid> put|uput <k> | rem <k> | get <k> | scan <l> <r|inf>
+     inv <tid> put|uput <k> | rem <k> | get <k> | scan <l> <r|inf> [<max> <rtl>]
      res <tid> ok | unique | notfound | present | notexist | keys:<k>,<k>,...
+     reval <tid> 0|1      (after all operations: did the re-validation of the pairs a scan of <tid> recorded find one stale?)
    in the observed total order.  The checker searches the interleavings of the model's steps
-   (cstep true = the repaired scanner) that respect the observed invocation / response order for one that
+   (ChainLimDefs.lstep: the repaired scanner with size limit and right-to-left mode; writers = ChainDefs.cstep) that respect the observed invocation / response order for one that
    reproduces every observed result: ACCEPT / REJECT (the real code showed a behaviour the model cannot
    produce) / SKIP (history outside the model: two scans at once) / UNKNOWN (search budget exhausted). *)
 open Ykmodel
 open Yutil
 
-type op = Put of n * bool | Rem of n | Get of n | Scan of n * n option
-type obs = Inv of int * op | Res of int * string
+type op = Put of n * bool | Rem of n | Get of n | Scan of n * n option * int * bool
+type obs = Inv of int * op | Res of int * string | Reval of int * bool
 
 let num = n_of_hex
 let keys_s (l : n list) = String.concat "," (List.map hex_of_n l)
@@ -39,14 +40,18 @@ let parse_line (l : string) : cnode list * obs list =
       | "inv" :: t :: "uput" :: k :: _ -> evs := Inv (int_of_string t, Put (num k, true)) :: !evs
       | "inv" :: t :: "rem" :: k :: _ -> evs := Inv (int_of_string t, Rem (num k)) :: !evs
       | "inv" :: t :: "get" :: k :: _ -> evs := Inv (int_of_string t, Get (num k)) :: !evs
-      | "inv" :: t :: "scan" :: l :: r :: _ ->
-        evs := Inv (int_of_string t, Scan (num l, if r = "inf" then None else Some (num r))) :: !evs
+      | "inv" :: t :: "scan" :: l :: r :: rest ->
+        let mx, rtl = (match rest with m :: d :: _ -> (int_of_string m, d = "1") | _ -> (0, false)) in
+        evs := Inv (int_of_string t, Scan (num l, (if r = "inf" then None else Some (num r)), mx, rtl)) :: !evs
       | "res" :: t :: r :: _ -> evs := Res (int_of_string t, r) :: !evs
+      | "reval" :: t :: st :: _ -> evs := Reval (int_of_string t, st = "1") :: !evs
       | [] -> ()
       | _ -> failwith ("chain_main: bad item " ^ p)) parts;
   (!chain, List.rev !evs)
 
 (* per-thread progress of the active operation *)
+exception Outside
+
 type phase =
   | Idle
   | P0 of op                    (* nothing done yet *)
@@ -55,16 +60,18 @@ type phase =
   | PScan                       (* scan: between EBegin and CDone *)
   | Fin of string               (* finished, result to be matched by the observed response *)
 
-let set_scanner (s : cstate) (sc : cscan) : cstate = { s with c_scan = sc }
+let set_scanner (s : lstate) (sc : lscan) : lstate = { s with l_scan = sc }
+let last_nvset : (n * cver) list ref = ref []
 
 (* all model successors of one step of thread t in phase ph: (state, phase) list *)
-let succs (s : cstate) (ph : phase) : (cstate * phase) list =
-  let st e = cstep true s e in
+let succs (s : lstate) (ph : phase) : (lstate * phase) list =
+  let st e = lstep s (LW e) in
+  let nodes = s.l_c.c_nodes in
   match ph with
   | Idle | Fin _ -> []
   | P0 (Put (k, uniq)) ->
-    if mem k (all_keys s.c_nodes) then [(s, Fin (if uniq then "unique" else "ok"))]
-    else (match cover k s.c_nodes with
+    if mem k (all_keys nodes) then [(s, Fin (if uniq then "unique" else "ok"))]
+    else (match cover k nodes with
         | None -> []
         | Some nd ->
           if List.length nd.cn_keys >= 15 then
@@ -73,28 +80,35 @@ let succs (s : cstate) (ph : phase) : (cstate * phase) list =
           else (match st (EIns k) with Some s' -> [(s', Fin "ok")] | None -> []))
   | PIns k -> (match st (EIns k) with Some s' -> [(s', Fin "ok")] | None -> [(s, Fin "ok")])
   | P0 (Rem k) ->
-    if not (mem k (all_keys s.c_nodes)) then [(s, Fin "notfound")]
-    else (match cover k s.c_nodes, st (ERem k) with
+    if not (mem k (all_keys nodes)) then [(s, Fin "notfound")]
+    else (match cover k nodes, st (ERem k) with
         | Some nd, Some s' ->
-          (match find_node nd.cn_id s'.c_nodes with
-           | Some nd' when nd'.cn_keys = [] -> [(s', PUnlink nd.cn_id)]
+          (match find_node nd.cn_id s'.l_c.c_nodes with
+           | Some nd' when nd'.cn_keys = [] ->
+             (* the layer's only border was emptied: the code keeps it as the layer root and flags it deleted until the
+                next insert; that protocol is outside the chain model (it is covered by ScanDefs / the emptied-tree
+                scenarios), so such a history is not judged here *)
+             if List.length (List.filter live s'.l_c.c_nodes) <= 1 then raise Outside
+             else [(s', PUnlink nd.cn_id)]
            | _ -> [(s', Fin "ok")])
         | _ -> [])
   | PUnlink id ->
     let a = List.filter_map (fun dir -> match st (EUnlink (id, dir)) with
         | Some s' -> Some (s', Fin "ok") | None -> None) [true; false] in
     if a = [] then [(s, Fin "ok")] else a
-  | P0 (Get k) -> [(s, Fin (if mem k (all_keys s.c_nodes) then "present" else "notexist"))]
-  | P0 (Scan (l, r)) ->
-    (match s.c_scan.sc_pc with
-     | CIdle -> (match st (EBegin (l, r)) with Some s' -> [(s', PScan)] | None -> [])
+  | P0 (Get k) -> [(s, Fin (if mem k (all_keys nodes) then "present" else "notexist"))]
+  | P0 (Scan (l, r, mx, rtl)) ->
+    (match s.l_scan.ls_pc with
+     | CIdle -> (match lstep s (LBegin (l, r, nat_of_int mx, rtl)) with Some s' -> [(s', PScan)] | None -> [])
      | _ -> [])
   | PScan ->
-    (match s.c_scan.sc_pc with
-     | CRead -> (match st ERead with Some s' -> [(s', PScan)] | None -> [])
-     | CNextVer -> (match st ENextVer with Some s' -> [(s', PScan)] | None -> [])
-     | CValidate -> (match st EValidate with Some s' -> [(s', PScan)] | None -> [])
-     | CDone -> [(set_scanner s idle_scan, Fin ("keys:" ^ keys_s s.c_scan.sc_res))]
+    (match s.l_scan.ls_pc with
+     | CRead -> (match lstep s LRead with Some s' -> [(s', PScan)] | None -> [])
+     | CNextVer -> (match lstep s LNextVer with Some s' -> [(s', PScan)] | None -> [])
+     | CValidate -> (match lstep s LValidate with Some s' -> [(s', PScan)] | None -> [])
+     | CDone ->
+       last_nvset := s.l_scan.ls_nvset;
+       [(set_scanner s idle_lscan, Fin ("keys:" ^ keys_s s.l_scan.ls_res))]
      | CIdle -> [])
 
 exception Found
@@ -102,7 +116,7 @@ exception Budget
 
 let check (chain : cnode list) (evs : obs list) : string * int =
   let evs = Array.of_list evs in
-  let nthreads = Array.fold_left (fun m e -> match e with Inv (t, _) | Res (t, _) -> max m (t + 1)) 0 evs in
+  let nthreads = Array.fold_left (fun m e -> match e with Inv (t, _) | Res (t, _) | Reval (t, _) -> max m (t + 1)) 0 evs in
   (* SKIP: two scans in flight at the same time *)
   let scanning = ref 0 and skip = ref false in
   let sc_of = Array.make (max nthreads 1) false in
@@ -111,13 +125,15 @@ let check (chain : cnode list) (evs : obs list) : string * int =
       | Res (t, _) -> if sc_of.(t) then (decr scanning; sc_of.(t) <- false)
       | _ -> ()) evs;
   if !skip || chain = [] then ("SKIP", 0) else begin
-    let s0 = { c_nodes = chain; c_fresh = n_of_int (List.length chain); c_scan = idle_scan; c_stable = []; c_ever = [] } in
+    let c0 = { c_nodes = chain; c_fresh = n_of_int (List.length chain); c_scan = idle_scan; c_stable = []; c_ever = [] } in
+    let s0 = { l_c = c0; l_scan = idle_lscan; l_stable = []; l_ever = [] } in
     let seen = Hashtbl.create 4096 in
     let count = ref 0 in
-    let rec dfs (pos : int) (s : cstate) (ph : phase array) : unit =
+    (* recs: the (node, version) sets recorded by the completed scans, per thread in order *)
+    let rec dfs (pos : int) (s : lstate) (ph : phase array) (recs : (int * (n * cver) list) list) : unit =
       if pos = Array.length evs then raise Found;
       (* ghosts do not influence behaviour: drop them from the memo key *)
-      let key = Marshal.to_string (pos, s.c_nodes, s.c_fresh, s.c_scan, ph) [] in
+      let key = Marshal.to_string (pos, s.l_c.c_nodes, s.l_c.c_fresh, s.l_scan, ph, recs) [] in
       if not (Hashtbl.mem seen key) then begin
         Hashtbl.add seen key ();
         incr count;
@@ -126,20 +142,37 @@ let check (chain : cnode list) (evs : obs list) : string * int =
         (match evs.(pos) with
          | Inv (t, o) ->
            if ph.(t) = Idle then begin
-             let ph' = Array.copy ph in ph'.(t) <- P0 o; dfs (pos + 1) s ph' end
+             let ph' = Array.copy ph in ph'.(t) <- P0 o; dfs (pos + 1) s ph' recs end
          | Res (t, r) ->
            (match ph.(t) with
-            | Fin r' when r' = r -> let ph' = Array.copy ph in ph'.(t) <- Idle; dfs (pos + 1) s ph'
-            | _ -> ()));
+            | Fin r' when r' = r -> let ph' = Array.copy ph in ph'.(t) <- Idle; dfs (pos + 1) s ph' recs
+            | _ -> ())
+         | Reval (t, stale) ->
+           (* after every operation has completed: is a pair recorded by the (first not yet judged) scan of thread t
+              stale in the model's final state?  must equal what the re-validation on the real tree found *)
+           (match List.partition (fun (t', _) -> t' = t) recs with
+            | (_, nv) :: more, others ->
+              let model_stale = List.exists (fun (id, v) ->
+                  match find_node id s.l_c.c_nodes with
+                  | Some nd -> nd.cn_ver <> v
+                  | None -> true) nv in
+              if model_stale = stale then dfs (pos + 1) s ph (others @ more)
+            | [], _ -> dfs (pos + 1) s ph recs));
         (* or let an active operation take a step *)
         for t = 0 to nthreads - 1 do
-          List.iter (fun (s', p') -> let ph' = Array.copy ph in ph'.(t) <- p'; dfs pos s' ph') (succs s ph.(t))
+          List.iter (fun (s', p') ->
+              let ph' = Array.copy ph in ph'.(t) <- p';
+              let recs' = (match ph.(t), p' with
+                  | PScan, Fin _ -> recs @ [(t, !last_nvset)]
+                  | _ -> recs) in
+              dfs pos s' ph' recs') (succs s ph.(t))
         done
       end in
-    match dfs 0 s0 (Array.make (max nthreads 1) Idle) with
+    match dfs 0 s0 (Array.make (max nthreads 1) Idle) [] with
     | () -> ("REJECT", !count)
     | exception Found -> ("ACCEPT", !count)
     | exception Budget -> ("UNKNOWN", !count)
+    | exception Outside -> ("SKIP", !count)
   end
 
 let () =
